@@ -153,7 +153,7 @@ fn run(ctx: &mut Ctx) {
     }
     let big = Arena::new(270);
     // two candidates: the first occurrence decides, however good the second one looks
-    ctx.bound("two_candidates", "buffers of 256, 8200 and 8256 bytes with two occurrences of the magic: the first at {0, 8, 12, 64} in a state from {bare magic, header with valid checksum (length 16 / 24), wrong checksum, all-ones length, stored length beyond the buffer}, the second 16 / 24 / 40 bytes further or at 4096 / 8176 / 8184 in each of these states or cut off by the buffer end; both architectures");
+    ctx.bound("two_candidates", "buffers of 256, 8200 and 8256 bytes with two occurrences of the magic: the first at {0, 8, 12, 64} in a state from {bare magic, header with valid checksum (length 16 / 24), wrong checksum, all-ones length, stored length beyond the buffer, valid checksum with a stored length of 0 / 8 / 12 / 15}, the second 16 / 24 / 40 bytes further or at 4096 / 8176 / 8184 in each of these states or cut off by the buffer end; both architectures");
     {
         let cand = |state: usize, arch: u32, room: usize| -> Vec<u8> {
             let mut v = MAGIC_LE.to_vec();
@@ -163,7 +163,12 @@ fn run(ctx: &mut Ctx) {
                 2 => (24, true),
                 3 => (16, false),
                 4 => (0xFFFF_FFFF, true),
-                _ => (room as u32 + 8, true),
+                5 => (room as u32 + 8, true),
+                // stored lengths below the basic header's own 16 bytes, checksum valid
+                6 => (0, true),
+                7 => (8, true),
+                8 => (12, true),
+                _ => (15, true),
             };
             v.extend_from_slice(&arch.to_le_bytes());
             v.extend_from_slice(&len.to_le_bytes());
@@ -176,7 +181,7 @@ fn run(ctx: &mut Ctx) {
         };
         for l in [256usize, 8200, 8256] {
             for first in [0usize, 8, 12, 64] {
-                for s1 in 0..6 {
+                for s1 in 0..10 {
                     let mut seconds: Vec<usize> = vec![first + 16, first + 24, first + 40];
                     if l > 8192 {
                         seconds.extend([4096, 8176, 8184, l - 8, l - 4]);
@@ -184,7 +189,7 @@ fn run(ctx: &mut Ctx) {
                         seconds.extend([l - 16, l - 8, l - 4]);
                     }
                     for second in seconds {
-                        for s2 in 0..6 {
+                        for s2 in 0..10 {
                             for arch in [0u32, 4] {
                                 let describe = || J::obj().set("part", "two_candidates").set("buffer_len", l).set("first_at", first).set("first_state", s1).set("second_at", second).set("second_state", s2).set("architecture", arch);
                                 ctx.leaf(describe, |ctx| {
